@@ -275,7 +275,7 @@ func (u *Unit) builtinAppend(c *ast.CallExpr, env *Env) Value {
 		}
 		m = sLen(b.Term)
 		bs := b.Term
-		elemAt = func(j Term) Term { return Select(Select(hOld, sBase(bs)), add(sOff(bs), j)) }
+		elemAt = func(j Term) Term { return Select(Select(hOld, sBase(bs)), u.idx(bs, j)) }
 	} else {
 		var elems []Term
 		for _, a := range c.Args[1:] {
@@ -316,7 +316,7 @@ func (u *Unit) builtinAppend(c *ast.CallExpr, env *Env) Value {
 	j := u.D.Bound("j", SInt)
 	rel := sub(j, toff)
 	body := Same(Select(arr, j),
-		Ite(And(le(toff, j), lt(rel, n)), Select(Select(hOld, sBase(s.Term)), add(sOff(s.Term), rel)),
+		Ite(And(le(toff, j), lt(rel, n)), Select(Select(hOld, sBase(s.Term)), u.idx(s.Term, rel)),
 			Ite(And(le(add(toff, n), j), lt(rel, total)), elemAt(sub(rel, n)),
 				Select(Select(hOld, tb), j))))
 	env.assume(Forall([]Term{j}, body, []Term{Select(arr, j)}))
